@@ -42,6 +42,9 @@ CHECKS = {
  "C01": dict(cat="model_checking", ref="§3 C01",
    text="(A) An attacker that is a full protocol participant (valid MACs, own DSA key; toolbox built from the package's primitives) plays every variant {legitimate, X_B carrying V's / B's / the victim's key signed by the attacker, key id 0, trailing bytes, DH value 0, 1, p-1, p, p+1, g^m+p, replayed final message} as initiator and as responder against a victim in plaintext or in a session with B, v2 and v3. (B) Explicit-state exploration of an honest exchange (from plaintext and as refresh) under a network that within a deviation budget drops, duplicates, reorders, replays a recorded earlier session or mutates the head message, with all delivery interleavings. After every step, for every honest party that is encrypted: the reported peer key belongs to a party whose randomness source generated the in-range DH value of the session, what was reported at establishment (key, SSID, highlight) is still reported, and two honest parties of the same exchange agree (SSID, complementary halves, fingerprints, mutual readability).",
    tech="explicit-state model checking of the implementation under a bounded-deviation network + exhaustive enumeration of attacker-built handshakes"),
+ "C11": dict(cat="model_checking", ref="§3 C11",
+   text="Honest world: for every secret pair (empty, equal, case / last-bit / NUL-suffix / prefix differences, 1000-byte, binary) × question × initiator × version, explicit-state exploration of all interleavings of the SMP steps, the answer, chat texts either way (key rotation) and a clock tick, with one or two back-to-back runs: success on both sides iff the secrets are byte-equal, the mismatch reported on the right sides, the secret asked for once per run, no text lost. Relay world: two separately keyed sessions with a relay forwarding every SMP TLV (attacker key, and the same identities on both sessions so that only the SSID differs): never success, each run reaching a verdict.",
+   tech="explicit-state model checking of the implementation (SMP interleavings) + exhaustive enumeration of relay configurations"),
 }
 NA_REASON = "check not built yet (work in progress; see DESIGN.md §3 for the planned bounded exploration)"
 def main():
